@@ -52,6 +52,13 @@ LamDef8(D, k, T) ==
 (* a level as a function on a set of abscissae (evaluated once) *)
 Row(D, k, dom) == TLCEval([T \in dom |-> Lam8(D, k, T)])
 
+(* the same by sorting the tent values once per abscissa (all levels at once; ThSort in the MC module: LamS = Lam8); *)
+(* used for the large diagrams of recorded executions                                                               *)
+SortedTents(D, T) == SortSeq([i \in 1..Len(D) |-> Tent8(D[i], T)], LAMBDA a, b : a > b)
+LamS(D, k, T) == IF k > Len(D) THEN 0 ELSE SortedTents(D, T)[k]
+Levels(D, dom) == TLCEval([T \in dom |-> SortedTents(D, T)])
+RowS(lv, k, dom) == TLCEval([T \in dom |-> IF k <= Len(lv[T]) THEN lv[T][k] ELSE 0])
+
 (* ------------------------------------------------------------ expressions *)
 NLevels(E) == IF Len(E.terms) = 0 THEN 0 ELSE SetMax({Len(E.terms[i].D) : i \in 1..Len(E.terms)})
 
@@ -69,6 +76,11 @@ Val(E, k, T) ==
 
 ERow(E, k, dom) ==
   LinComb([i \in 1..Len(E.terms) |-> E.terms[i].n], [i \in 1..Len(E.terms) |-> Row(E.terms[i].D, k, dom)], E.abs, dom)
+(* all levels 1..NLevels(E)+1 of E through the sorted tent values *)
+RowsS(E, dom) ==
+  LET lv == TLCEval([i \in 1..Len(E.terms) |-> Levels(E.terms[i].D, dom)])
+  IN TLCEval([k \in 1..(NLevels(E) + 1) |->
+               LinComb([i \in 1..Len(E.terms) |-> E.terms[i].n], [i \in 1..Len(E.terms) |-> RowS(lv[i], k, dom)], E.abs, dom)])
 
 (* f - g for rows with denominators df, dg: numerator over df * dg *)
 DiffRow(f, df, g, dg, dom) == TLCEval([T \in dom |-> dg * f[T] - df * g[T]])
